@@ -24,6 +24,7 @@ ATOMIC_NEW = "atomic_new"
 ATOMIC_RMW_ADD = "atomic_add"
 ATOMIC_RMW_SUB = "atomic_sub"
 ATOMIC_LOAD = "atomic_load"
+ATOMIC_CAS = "atomic_cas"
 ATOMIC_OTHER = "atomic_other"  # any other access to an atomic (store, swap, CAS, get_mut, ...)
 FENCE = "fence"
 FROM_RESIDUAL = "from_residual"
@@ -80,6 +81,7 @@ TABLE = [
     (r"^<core::sync::atomic::Atomic<\w+>>::fetch_add$", ATOMIC_RMW_ADD, "atomic increment, returns the old value"),
     (r"^<core::sync::atomic::Atomic<\w+>>::fetch_sub$", ATOMIC_RMW_SUB, "atomic decrement, returns the old value"),
     (r"^<core::sync::atomic::Atomic<\w+>>::load$", ATOMIC_LOAD, "atomic load"),
+    (r"^<core::sync::atomic::Atomic<\w+>>::compare_exchange(_weak)?$", ATOMIC_CAS, "compare-and-swap: Ok(old) if the word held `current` and now holds `new`, Err(seen) and no change otherwise"),
     (r"^<core::sync::atomic::Atomic<.*>>::\w+$", ATOMIC_OTHER, "any other atomic access"),
     (r"^core::sync::atomic::(fence|compiler_fence)$", FENCE, "memory fence"),
     # --- control ---------------------------------------------------------------------------
